@@ -105,7 +105,7 @@ package session
 //@ field[C20] Session.side: immutable_after(NewAcceptorSession, NewInitiatorSession)
 // Every function that moves the state machine or emits a message is covered by a proof
 // (has a contract, or is executed in line by a function that has one).
-//@ rule[C05,C06,C07,C08,C09,C10,C14,C15,C16] covered-callers: (*Session).changeState, (*Session).send, (*Session).sendWithErrorCheck
+//@ rule[C05,C06,C07,C08,C09,C10,C14,C15,C16] covered-callers: (*Session).changeState, (*Session).send, (*Session).sendWithErrorCheck, write Session.state, write Session.LogonSettings, Session.Router.Send, Session.Router.SendBatch
 //@ callguard[C05] Session.counter.GetNextSeqNum: mu
 //@ callguard[C05] Session.Router.Send: mu
 //@ field Session.LogonHandler: callback(pure)
